@@ -131,12 +131,14 @@ def handleC15 (fields : List String) : Verdict :=
         -- cells is inside some at-most-one / exactly-one list
         let o2 : Option String :=
           match conjuncts (10 * n + 20) f with
-          | none => some "the output is not a conjunction of counting constraints ending in true"
+          -- another shape of formula is not by itself a failing input: it is a difference from the model (`modelOk`),
+          -- and for n <= 4 oracle 1 has already compared its models with the placements
+          | none => none
           | some cs =>
             let lists := cs.filterMap (fun c => match c with
               | .cntConst op fs k => (cellsOfList fs).map (fun l => (op, l, k))
               | _ => none)
-            if lists.length != cs.length then some "a conjunct is not a counting constraint over variables" else
+            if lists.length != cs.length then none else
             if lists.any (fun (_, l, _) => l.any (fun v => v ≥ n * n)) then some "a variable outside v_0 … v_(n*n-1)" else
             let sols := if n ≤ 8 then solveQueens n else []
             let holds := fun (board : Nat → Bool) (c : CntOp × List Nat × Nat) =>
